@@ -23,7 +23,8 @@ RULE = ("chains p0 <- p1 <- ... of length 1..5 of partitions (InMemoryPartition 
         '; rounds 7-9: equal-comparing values of different types, levels held as values of in-memory / on-disk partitions before a further child is made (holder forgotten in between), a child stored in another cluster than its parent'
         '; rounds 10-11: read-back handles given a merge parent, parents whose latest store is gone, children of a parent whose own store failed part-way'
         '; round 13: on-disk levels that assign their keys twice'
-        '; round 15: a parent published under a key override, child stored where the same override names exist')
+        '; round 15: a parent published under a key override, child stored where the same override names exist'
+        '; round 16: dictionaries with non-string keys and lists holding tuples among the values')
 ASSUMPTIONS = ["a child declares its parent by setting _merge_parent, as the repository's own tests do",
                "values inside partitions are drawn from the non-partition result domain"]
 TIMEOUT = 600
